@@ -264,10 +264,24 @@ impl FileMessageReader {
         Ok(())
     }
 
+    /// one `read` call returns at most what the file's internal buffer holds (2 MiB), so a larger
+    /// record needs several calls; stops early only at the end of the file
+    async fn read_full(&mut self, data_buf: &mut [u8]) -> anyhow::Result<usize> {
+        let mut data_len = 0;
+        while data_len < data_buf.len() {
+            let n = self.file.read(&mut data_buf[data_len..]).await?;
+            if n == 0 {
+                break;
+            }
+            data_len += n;
+        }
+        Ok(data_len)
+    }
+
     pub async fn read_next(&mut self) -> anyhow::Result<Vec<u8>> {
         let len = self.read_len().await?;
         let mut data_buf = vec![0u8; len as usize];
-        let data_len = self.file.read(&mut data_buf).await?;
+        let data_len = self.read_full(&mut data_buf).await?;
         if data_len < data_buf.len() {
             return Err(anyhow::anyhow!("read data not enough"));
         }
@@ -280,7 +294,7 @@ impl FileMessageReader {
         let len = position.1 as u64;
         let mut data_buf = vec![0u8; len as usize];
         self.file.seek(SeekFrom::Start(position.0)).await?;
-        let data_len = self.file.read(&mut data_buf).await?;
+        let data_len = self.read_full(&mut data_buf).await?;
         if data_len < data_buf.len() {
             return Err(anyhow::anyhow!("read data not enough"));
         }
